@@ -134,8 +134,9 @@ def _driver(ck: Checker) -> None:
     def empty_read(t, lab):
         if t.kind != "test" or lab != "F":
             return False
-        if any(t.ast is r for r in reads):
-            return True  # `while stream.read(n): ...`
+        e = t.ast.value if isinstance(t.ast, ast.NamedExpr) else t.ast
+        if any(e is r for r in reads):
+            return True  # `while stream.read(n): ...`  /  `while (data := stream.read(n)): ...`
         return flows_from_calls(g, t, t.ast, reads) and isinstance(t.ast, ast.Name)
 
     after = {d for _n, _l, d in exits}
